@@ -63,6 +63,8 @@ def oracle(chk, o, m):
     caller = case.get("caller")
     label = case.get("label")
     relayed = sum(o["bytes"].values()) > 0
+    if m is None:
+        m = {"kind": "not-modelled"}
     chk.case(nontrivial_key=("e2e", label, caller and caller["elevated"], o["req"]["target"], m["kind"]))
     chk.count(f"e2e_{label}_{'elev' if caller and caller['elevated'] else 'nonelev'}_{m['kind']}{m.get('status','')}")
     if label == "direct-after-elevated" and relayed:
@@ -137,6 +139,20 @@ def run(chk):
                     runner.run_case(b)
                 except OSError:
                     chk.count("port_reuse_not_possible")
+        # request targets in absolute form (as a client talking to a proxy may send them), naming other ports and hosts than the
+        # connection's recorded destination: the recorded destination decides, a non-elevated caller stays out
+        for label, dest in (("ws", e2e.WS), ("ga", e2e.GA)):
+            for authority in ("168.63.129.16:8080", "168.63.129.16", "168.63.129.16:32526", "169.254.169.254", "169.254.169.254:80", "example.com:81",
+                              "127.0.0.1:3080"):
+                c = pipegen.gen_case(rng, callers, st, dest_label=label)
+                c["caller"] = callers.caller(1000, "curl", False)
+                for ep in ("ws", "hostga", "imds"):
+                    c["env"][ep] = None
+                c["req"] = {"method": "GET", "target": "http://%s/machine?comp=goalstate" % authority, "headers": [(b"Host", authority.encode())],
+                            "body": None, "chunked": None}
+                c["nomodel"] = True
+                chk.count("absolute_form_targets")
+                runner.run_case(c)
         # every non-root user id the generator knows (system accounts, nobody, a high id), not elevated, on both root-only endpoints
         # with no rule set at all
         for uid in sorted(u for u in callers.users if u != 0):
@@ -153,6 +169,13 @@ def run(chk):
         chk.sample(runner.describe(runner.observations[0]))
     finally:
         stack.close()
+    # the rules cannot be looked up (their actor has died): a non-elevated caller still does not get through to a root-only endpoint
+    for ob in pipe.rules_lookup_fails(binp, chk.count):
+        if ob["label"] in ("ws", "ga") and not ob["elevated"]:
+            chk.case(nontrivial_key=("rules-lookup-fails", ob["label"], ob["actor"], ob["status"]))
+            if ob["upstream_bytes"]:
+                chk.violation("request relayed although caller is not elevated on a root-only endpoint / destination is the proxy itself", ob,
+                              expected="no upstream bytes", observed=ob["upstream_bytes"])
     chk.coverage["rule"] = ("direct calls of proxy_authorizer::authorize over 8 (ip,port) pairs x elevation x rule documents in all "
                             "modes (C02 generator) + e2e requests to WireServer/HostGA/self from mostly non-elevated callers; "
                             "non-trivial = distinct (endpoint, elevation, mode, uri, result)")
